@@ -90,6 +90,44 @@ func VC11_accept() {
 	}
 }
 
+// VC11_accept2: the same for a week that holds counter files of two builds whose
+// GOOS/GOARCH are arbitrary and independent of each other (a shared home directory, a
+// cross-compiled tool run under emulation): whatever the uploader then sends, the server
+// accepts.
+func VC11_accept2() {
+	ucfg := c11config(1)
+	pc := ucfg.Programs[0]
+	mk := func() *counter.File {
+		f := &counter.File{Meta: map[string]string{}, Count: map[string]uint64{}}
+		f.Meta["Program"], f.Meta["Version"], f.Meta["GoVersion"] = pc.Name, pc.Versions[0], ucfg.GoVersion[0]
+		f.Meta["GOOS"], f.Meta["GOARCH"] = vrt.String(1), vrt.String(1)
+		f.Count[pc.Counters[0].Name] = uint64(vrt.U32()) + 1
+		return f
+	}
+	f1, f2 := mk(), mk()
+	r, n := upload.VerifUploadReport(ucfg, []*counter.File{f1, f2}, 0.5)
+	if n == 0 {
+		return
+	}
+	vrt.Assert(r != nil, "the request body is a report")
+	if r == nil {
+		return
+	}
+	vrt.Reach("posted two builds")
+	err := validate(r, tconfig.NewConfig(ucfg))
+	vrt.Assert(err == nil, "the server accepts the uploader's report for a week with two builds of different platforms")
+	// and the uploader leaves out no build the configuration lists
+	for _, f := range []*counter.File{f1, f2} {
+		if f.Meta["GOOS"] == ucfg.GOOS[0] && f.Meta["GOARCH"] == ucfg.GOARCH[0] {
+			found := false
+			for _, p := range r.Programs {
+				found = found || (p.GOOS == f.Meta["GOOS"] && p.GOARCH == f.Meta["GOARCH"])
+			}
+			vrt.Assert(found, "a build the configuration lists is uploaded whatever other builds the week holds")
+		}
+	}
+}
+
 // VC11_reject: a report is accepted exactly when every build, counter and stack in it is
 // approved by the documented configuration semantics (each field either copied from the
 // configuration or arbitrary, so reports differing from an approved one in a single field occur).
